@@ -370,9 +370,13 @@ def install(fs, store_module=None, cache_module=None):
     """Make `fs` the file system seen by liquer.store / liquer.cache (module globals only; nothing in /repo changes)."""
     ShimPath.fs = fs
     shim_open = fs.open
-    os_path = types.SimpleNamespace(join=posixpath.join, exists=fs.exists, isdir=fs.isdir, dirname=posixpath.dirname,
-                                    basename=posixpath.basename, split=posixpath.split, splitext=posixpath.splitext,
-                                    normpath=posixpath.normpath, isabs=posixpath.isabs)
+    # os.path: every pure path function of posixpath, with the file-system-touching ones answered by ShimFS
+    pure = {n: getattr(posixpath, n) for n in ("join", "dirname", "basename", "split", "splitext", "normpath", "isabs", "commonprefix",
+                                                "commonpath", "sep", "relpath", "normcase", "splitdrive", "curdir", "pardir", "extsep")}
+    os_path = types.SimpleNamespace(exists=fs.exists, lexists=fs.exists, isdir=fs.isdir,
+                                    isfile=lambda p: fs.touch("stat", p) in fs.files, islink=lambda p: False,
+                                    abspath=lambda p: fs.norm(p), realpath=lambda p, **k: fs.norm(p),
+                                    getsize=lambda p: len(fs.files[fs.touch("stat", p)]), expanduser=lambda p: p, **pure)
 
     def makedirs(p, exist_ok=False):
         n = fs.norm(p)
